@@ -1103,7 +1103,8 @@ struct reb_orbit reb_orbit_from_particle_err(double G, struct reb_particle p, st
         o.M = ea - o.e*sin(ea);			// mean anomaly (Kepler's equation)
     }
     else{
-        ea = acosh((1.-o.d/o.a)/o.e);
+        double coshea = (1.-o.d/o.a)/o.e;
+        ea = (coshea > 1.) ? acosh(coshea) : 0.; // at pericenter rounding can give 1-eps, acosh would return NaN (same clamp as acos2)
         if(vr < 0.){                    // Approaching pericenter, so eccentric anomaly < 0.
             ea = -ea;
         }
